@@ -69,12 +69,12 @@ theorem Cmd.wr_iff_targets (c : Cmd) (w : W) (j : Nat) : c.fp.wr w j ↔ j ∈ c
 
 /-- **FRAME.** A step of the interpreter leaves every document that is not a target of the command literally unchanged,
     every reference the command does not rebind literally unchanged, and does not touch the world log, the ghost table,
-    the geometry: `w'.docs[j] = w.docs[j]` for `j ∉ targets`. -/
+    the geometry, the string overhead, the string-length limit: `w'.docs[j] = w.docs[j]` for `j ∉ targets`. -/
 theorem step_frame (c : Cmd) (w : W) :
     (∀ j, j ∉ c.targets w → (DH.step w c.render).2.docs[j]? = w.docs[j]? ∧ (DH.step w c.render).2.docs[j]! = w.docs[j]!) ∧
     (∀ r, ¬ c.fp.bind r → (DH.step w c.render).2.refs[r]? = w.refs[r]? ∧ (DH.step w c.render).2.refs[r]! = w.refs[r]!) ∧
     (DH.step w c.render).2.log = w.log ∧ (DH.step w c.render).2.dead = w.dead ∧ (DH.step w c.render).2.geo = w.geo ∧
-    (DH.step w c.render).2.strOverhead = w.strOverhead := by
+    (DH.step w c.render).2.strOverhead = w.strOverhead ∧ (DH.step w c.render).2.maxStrLen = w.maxStrLen := by
   refine ⟨fun j hj => ?_, fun r hr => ?_, c.local.frame_rest w⟩
   · have h := c.local.frame_docs w j (fun h => hj ((c.wr_iff_targets w j).1 h))
     exact ⟨h, docs_bang_congr h⟩
